@@ -1,5 +1,6 @@
 import JenVerif.Heap
 import JenVerif.Lemmas.ListSem
+import JenVerif.Gen.Api
 /-
   C20 — Clone isolation: clones and originals never corrupt each other.
   Heap model: statements are registers; `Clone` makes a new statement whose single item is a
@@ -43,6 +44,14 @@ theorem append_other (h : Heap) (c o : Nat) (xs : List HCode) (ho : o ≠ c) : g
 /-- a fresh clone is one reference to the original; cloning changes no other statement -/
 theorem clone_self (h : Heap) (d s : Nat) : get (clone h d s) d = [.ref s] := get_set_self h d _
 theorem clone_other (h : Heap) (d s o : Nat) (ho : o ≠ d) : get (clone h d s) o = get h o := get_set_other h d o _ ho
+
+/-- OBLIGATION (regenerated from /repo on every check): the body of `Statement.Clone` is exactly
+    `return &Statement{s}` — a NEW statement whose single item is the receiver pointer — which is
+    what `Heap.clone` says (`set h dst [.ref src]`).  A Clone that copies, splices, shares a
+    backing array or looks through nested clones has another shape and breaks this obligation. -/
+theorem clone_is_wrap :
+    Gen.api.any (fun d => d.name == b!"Clone" && d.recv == Gen.Recv.stmt && d.shape == Gen.Shape.cloneWrap && d.nparams == 0) = true := by
+  decide +kernel
 
 /-! ### snapshots: references point to older statements -/
 
